@@ -298,7 +298,7 @@ theorem appendAofLoop_snap (fuel : Nat) : ∀ (s : Mem) (buf : Bytes) (done : Na
 def finishAofClosed (s : Mem) (cur : Nat) (aw : Option Nat) : Mem :=
   { s with segs := mUpdate s.segs cur (fun g => { g with closed := true }),
            heap := mUpdate s.heap cur (fun g => { g with closed := true }),
-           aofW := aw }
+           aofW := aw, pendA := none }
 
 theorem finishAof_snap (s : Mem) (cur : Nat) (isCurrent : Bool) (hs : SnapInv s) : SnapInv (s.finishAof cur isCurrent) := by
   unfold Mem.finishAof
@@ -980,13 +980,16 @@ theorem step_snap (s : Mem) (op : MOp) (hi : MemInv s) (hs : SnapInv s) : SnapIn
     have h1 := (appendRdbLoop_inv (chunk.length + 1) s chunk 0 hi).1
     have s1 := appendRdbLoop_snap (chunk.length + 1) s chunk 0 hi hs
     split
-    · exact ⟨s1.streamNext, s1.nextBound, s1.heapNext, s1.disj, s1.linked, s1.sbound, s1.snap⟩
+    · exact hs
     · split
+      · exact ⟨s1.streamNext, s1.nextBound, s1.heapNext, s1.disj, s1.linked, s1.sbound, s1.snap⟩
       · split
-        · exact finishRdb_snap _ false s1
+        · split
+          · exact finishRdb_snap _ false s1
+          · exact s1
         · exact s1
-      · exact s1
   | rdbClose => exact finishRdb_snap s false hs
+  | rdbFail => exact finishRdb_snap s true hs
   | newAofWriter off =>
     simp only [Mem.step]
     have tail : ∀ (s1 : Mem), SnapInv s1 → SnapInv (match s.aofW with
@@ -1040,8 +1043,10 @@ theorem step_snap (s : Mem) (op : MOp) (hi : MemInv s) (hs : SnapInv s) : SnapIn
       dsimp only
       have s1 := appendAofLoop_snap (chunk.length + 1) s chunk 0 hi hs
       split
-      · exact ⟨s1.streamNext, s1.nextBound, s1.heapNext, s1.disj, s1.linked, s1.sbound, s1.snap⟩
-      · exact s1
+      · exact hs
+      · split
+        · exact ⟨s1.streamNext, s1.nextBound, s1.heapNext, s1.disj, s1.linked, s1.sbound, s1.snap⟩
+        · exact s1
   | aofClose =>
     simp only [Mem.step]
     cases haw : s.aofW with
